@@ -20,8 +20,9 @@ b1=0; cargo build --offline >/dev/null 2>&1 || b1=1
 b2=0; cargo build --offline --features cli --bin succinctly >/dev/null 2>&1 || b2=1
 b3=0; cargo build --offline --features simd >/dev/null 2>&1 || b3=1
 run_demo; mut_rc=$?
-cargo nextest run --workspace --no-fail-fast --test-threads 8 --offline >/tmp/sv/suite.log 2>&1; suite_rc=$?
-summary=$(grep -E "Summary" /tmp/sv/suite.log | tail -1 | sed 's/"/'"'"'/g')
+if [ "${LITE:-0}" = "1" ]; then suite_rc=-1; summary="not re-run by the maintainer of /verif (time); the sub-agent's own full-suite result is in meta.json tests_result";
+else cargo nextest run --workspace --no-fail-fast --test-threads 8 --offline >/tmp/sv/suite.log 2>&1; suite_rc=$?
+summary=$(grep -E "Summary" /tmp/sv/suite.log | tail -1 | sed 's/"/'"'"'/g'); fi
 git checkout -q -- . ; git clean -fdq
 cat > $D/verified.json <<JSON
 {"id":"$ID","applies":true,"repo_head":"$(git -C /repo rev-parse --short HEAD)","builds":{"default":$((1-b1)),"cli":$((1-b2)),"simd":$((1-b3))},
